@@ -75,7 +75,7 @@ theorem addEntries_crash (hp : p.WF) {s : State} {a : Nat} {ess : List (List Ent
       have hcf : conflict p s e0.index = s := by simp [conflict, hsg]
       have hcm : conflictMuts p s e0.index = [] := by simp [conflictMuts, hsg]
       have r0 : LogRepW p s e0.index [] [] :=
-        ⟨by rw [hf]; exact Chain.nil p _, r.cur, Seq.nil _, r.next_eq, r.fidCur, r.fids, r.np, r.mtOK, (hok.ok e0 (by simp)).1.index_pos⟩
+        ⟨by rw [hf]; exact Chain.nil p _, r.cur, Seq.nil _, r.next_eq, r.fidCur, r.fids, r.np, r.mtOK, (hok.ok e0 (by simp)).index_pos⟩
       have hoff := r0.cur.next_offset
       rw [← r0.next_eq] at hoff
       obtain ⟨hc, hsd⟩ := loop_crash hp (e0 :: rest) s [] [] r0 hok.ok (by simpa using hseq)
